@@ -214,6 +214,7 @@ func runC12(c *Ctx) {
 	if g.Chance(4) {
 		dev = zapcore.Lock(w.sink)
 		c.Describe("device behind zapcore.Lock")
+		c.R.Probe("device behind zapcore.Lock")
 	}
 	w.bws = &zapcore.BufferedWriteSyncer{WS: dev, Size: w.size, FlushInterval: time.Duration(1+g.Draw(60)) * time.Second}
 	w.bws.Clock = clk.For(unsafe.Pointer(w.bws), unsafe.Sizeof(*w.bws))
@@ -304,6 +305,7 @@ func runC12(c *Ctx) {
 			lens[i] = g.Draw(2 * eff) // 0: a Sync
 		}
 		c.Describe("companion syncer over disk-b: ops %v (0 = Sync)", lens)
+		c.R.Probe("companion syncer of the same size in use")
 		r.Go("tb", func() {
 			for _, n := range lens {
 				if n == 0 {
@@ -704,6 +706,7 @@ func runC12faulty(c *Ctx) {
 	if g.Chance(3) {
 		dev = zapcore.Lock(sink)
 		c.Describe("device behind zapcore.Lock")
+		c.R.Probe("device behind zapcore.Lock")
 	}
 	b := &zapcore.BufferedWriteSyncer{WS: dev, Size: size, FlushInterval: time.Second}
 	b.Clock = clk.For(unsafe.Pointer(b), unsafe.Sizeof(*b))
